@@ -133,7 +133,7 @@ def run(chk):
     chk.rule = ("complete enumeration of the property's universe: every array shape of rank 0-3 with extents 0..4 (156 shapes) x "
                 "dtypes {f4,f8,i4,i8,u1,bool,object}, lists and tuples of length 0..4, None, str, int, float, dict, object, other sequences and containers of length 0..4 (bytes, bytearray, range, deque, array.array, memoryview, set, frozenset, dict, dict keys), "
                 "CameraViewPort — substituted for each validated argument of Data3D, ForceTorque3D, CalibrationDataBlock, "
-                "CameraViewPort, SeelabCameraData, OpticalChannelData (others valid); ForceTorqueTrack: all triples over a "
+                "CameraViewPort, SeelabCameraData, OpticalChannelData (others valid), and two or three geometry arguments wrong at once (all triples over 12 values; all pairs of Seelab positions over 6 values); ForceTorqueTrack: all triples over a "
                 "12-shape subset + non-arrays; Event: every value x both kinds; observed: accepted / exception class, and "
                 "nBytes vs encoded length of every accepted object; non-trivial = the substituted value is not the valid one")
     chk.exhaustive = True
@@ -145,6 +145,34 @@ def run(chk):
                 pargs = [v[1] for v in valid]
                 margs[pos], pargs[pos] = m, p
                 cases.append((cid, name, pos, margs, (lambda build=build, pargs=pargs: build(pargs)), m, "%s.%s = %s" % (name, argnames[pos], desc)))
+    # several arguments wrong AT ONCE (a check that looks at the arguments together must not let two wrong shapes cancel
+    # out): every triple over a 12-value subset for the three geometry arguments of Data3D / ForceTorque3D /
+    # CalibrationDataBlock, every pair of positions over a 6-value subset for the Seelab record
+    sub3 = [(), (3,), (3, 3), (3, 3, 3), (9,), (1, 3), (3, 1), (2,), (4,), (0,)]
+    vals3 = [([5, list(sh)], arr(sh, "<f4"), "array%r" % (sh,)) for sh in sub3] + [([3, 3], [1, 2, 3], "list 3"), ([0], None, "None")]
+    for cid, name, build, valid, argnames in constructors():
+        if name in ("Data3D", "ForceTorque3D", "CalibrationDataBlock"):
+            for combo in itertools.product(vals3, repeat=3):
+                margs = [v[0] for v in valid]
+                pargs = [v[1] for v in valid]
+                for pos, (m, p, d) in enumerate(combo):
+                    margs[pos], pargs[pos] = m, p
+                nwrong = sum(1 for pos in range(3) if not REQUIRED[(name, pos)](margs[pos]))
+                if nwrong < 2:
+                    continue              # none / one wrong: covered above, argument by argument
+                desc = "%s(%s)" % (name, ", ".join("%s=%s" % (argnames[pos], combo[pos][2]) for pos in range(3)))
+                cases.append((cid, name, None, margs, (lambda build=build, pargs=pargs: build(pargs)), None, desc, "multi"))
+        if name == "SeelabCameraData":
+            vals6 = [([5, list(sh)], arr(sh, "<f8"), "array%r" % (sh,)) for sh in [(2,), (3,), (3, 3), (2, 2), (), (4,)]]
+            for p1, p2 in itertools.combinations(range(7), 2):
+                for (m1, v1, d1), (m2, v2, d2) in itertools.product(vals6, repeat=2):
+                    margs = [v[0] for v in valid]
+                    pargs = [v[1] for v in valid]
+                    margs[p1], pargs[p1], margs[p2], pargs[p2] = m1, v1, m2, v2
+                    if REQUIRED[(name, p1)](m1) or REQUIRED[(name, p2)](m2):
+                        continue
+                    desc = "%s(%s=%s, %s=%s)" % (name, argnames[p1], d1, argnames[p2], d2)
+                    cases.append((cid, name, None, margs, (lambda build=build, pargs=pargs: build(pargs)), None, desc, "multi"))
     # coupled arrays
     from basictdf.tdfForce3D import ForceTorqueTrack
     sub = [(), (0,), (3,), (4,), (0, 3), (1, 3), (4, 3), (4, 2), (3, 4), (4, 4), (2, 3, 1), (4, 3, 1)]
@@ -159,7 +187,7 @@ def run(chk):
         for single in (1, 0):
             ty = EventsDataType.singleEvent if single else EventsDataType.eventSequence
             cases.append((7, "Event", 0, [m], (lambda p=p, ty=ty: Event("e", p, ty)), m, "Event(values=%s, %s)" % (desc, ty.name), single))
-    mres = common.run_model_sharded([(42, [c[0], c[3], c[7] if len(c) > 7 else 0]) for c in cases])
+    mres = common.run_model_sharded([(42, [c[0], c[3], c[7] if len(c) > 7 and c[7] != "multi" else 0]) for c in cases])
     for c, m in zip(cases, mres):
         cid, name, pos, margs, thunk, mval, desc = c[:7]
         try:
@@ -168,13 +196,17 @@ def run(chk):
         except Exception as e:
             o = None
             rc = api.exc_name(e)
-        trivial = mval is not None and cid < 6 and REQUIRED[(name, pos)](mval)
+        multi = len(c) > 7 and c[7] == "multi"
+        trivial = (not multi) and mval is not None and cid < 6 and REQUIRED[(name, pos)](mval)
         chk.note_case(desc, not trivial)
         chk.count("%s %s" % (name, "accepted" if rc is None else rc))
         what = {"constructor": name, "argument": desc, "model_args": margs}
         # ---- oracle
         found = None
-        if cid < 6:
+        if multi:
+            if rc is None:
+                found = "%s was accepted although two or more of its arguments have the wrong shape" % desc
+        elif cid < 6:
             req = REQUIRED[(name, pos)](mval)
             if rc is None and not req:
                 found = "%s was accepted" % desc
@@ -200,7 +232,7 @@ def run(chk):
                 found = "%s (more than one value for a single event) raised %s, expected TypeError" % (desc, rc)
         # (the camera map's LENGTH is coupled to the camera list, which is not one of the fixed-shape arguments
         #  this property is about: its sizing is not judged here)
-        if not found and rc is None and hasattr(o, "nBytes") and not (name == "CalibrationDataBlock" and pos == 3):
+        if not found and rc is None and hasattr(o, "nBytes") and not (name == "CalibrationDataBlock" and pos == 3) and not multi:
             sz = sized_ok(o)
             if isinstance(sz, tuple) and sz[0] != sz[1]:
                 found = "%s was accepted and is mis-sized: nBytes %d, %d bytes written" % (desc, sz[0], sz[1])
